@@ -150,13 +150,14 @@ def yq(s):
 class Gen:
     """Random valid package generator. All randomness from rng."""
 
-    def __init__(self, rng, namespace="Ns", allow_generics=True, allow_strings_in_arrays=False,
+    def __init__(self, rng, namespace="Ns", allow_generics=True, allow_strings_in_arrays=False, allow_time_in_arrays=False,
                  max_depth=3, n_records=4, n_enums=3, n_aliases=3, n_protocols=3, steps=(2, 5)):
         self.rng = rng
         self.pkg = Package(namespace)
         self.max_depth = max_depth
         self.allow_generics = allow_generics
         self.allow_strings_in_arrays = allow_strings_in_arrays
+        self.allow_time_in_arrays = allow_time_in_arrays
         self.n_records, self.n_enums, self.n_aliases, self.n_protocols, self.steps = n_records, n_enums, n_aliases, n_protocols, steps
 
     # ---- leaf / named
@@ -324,7 +325,10 @@ class Gen:
         rng = self.rng
         r = rng.random()
         if r < 0.55:
-            p = rng.choice([q for q in PRIMS if q != "string" or self.allow_strings_in_arrays])
+            # arrays of date/time/datetime cannot be written by the generated Python NDJSON writer
+            # ("Expected dtype datetime64, got datetime64[ns]"; recorded under C02): kept out of the random packages
+            p = rng.choice([q for q in PRIMS if (q != "string" or self.allow_strings_in_arrays)
+                            and (self.allow_time_in_arrays or q not in ("date", "time", "datetime"))])
             return prim(p)
         if r < 0.7:
             enums = [t for t in self.pkg.named if t.kind == "enum"]
